@@ -123,6 +123,16 @@ def child_main(script, path, marker, rfd, wfd, keep_fds):
                 io.report(b'V')
                 fd = None
             io.report(b'C')
+            if script.get('spawn_helper'):
+                # a daemon that starts a long-running program while it holds the lock (descriptors are inherited
+                # across exec unless they are close-on-exec, which every descriptor Python opens is)
+                import subprocess
+                sys.settrace(None)
+                h = subprocess.Popen(['/bin/sleep', '30'], close_fds=False, stdin=subprocess.DEVNULL,
+                                     stdout=subprocess.DEVNULL, stderr=subprocess.DEVNULL)
+                with open(path + '.helper', 'a') as f:
+                    f.write(f'{h.pid}\n')
+                sys.settrace(gtrace)
             if not lock.is_locked:
                 io.report(b'V', 1)
             for _ in range(script.get('hold_steps', 2)):
@@ -170,6 +180,8 @@ def child_main(script, path, marker, rfd, wfd, keep_fds):
                     io.report(b'F')
 
         io.report(b'L', 0)              # parked before the first line: the controller decides when we start
+        if script.get('close_stdin'):
+            os.close(0)                 # daemon-style: the next descriptor the process opens is number 0
         sys.settrace(gtrace)
         try:
             for _ in range(script.get('rounds', 1)):
@@ -215,6 +227,8 @@ class Controller:
         self.log = hashlib.blake2b(digest_size=16)
         self.steps = 0
         self.kills = 0
+        self.zombies = []
+        self.helpers = []
 
     def viol(self, prop, oracle, sig, detail, **features):
         self.violations.append({'property': prop, 'oracle': oracle, 'signature': sig, 'detail': detail, 'features': features})
@@ -291,11 +305,17 @@ class Controller:
         os.write(ch.wfd, b'g')
         return self.read_event(ch)
 
-    def kill(self, ch):
+    def kill(self, ch, reap=True):
         self.kills += 1
         self.log.update(b'K%d;' % ch.idx)
         os.kill(ch.pid, signal.SIGKILL)
-        os.waitpid(ch.pid, 0)
+        if reap:
+            os.waitpid(ch.pid, 0)
+        else:
+            # leave it a zombie until cleanup(): its pid still exists, as with a parent that is slow to wait().
+            # WNOWAIT waits until the process *is* a zombie (all its descriptors are closed by then) without reaping it.
+            os.waitid(os.P_PID, ch.pid, os.WEXITED | os.WNOWAIT)
+            self.zombies.append(ch.pid)
         os.close(ch.rfd)
         os.close(ch.wfd)
         ch.state = 'dead'
@@ -338,6 +358,20 @@ class Controller:
                 stale = 0
 
     def cleanup(self):
+        for pid in self.zombies:
+            try:
+                os.waitpid(pid, 0)
+            except OSError:
+                pass
+        self.zombies = []
+        hp = self.path + '.helper'
+        if os.path.exists(hp):
+            for line in open(hp).read().split():
+                try:
+                    os.kill(int(line), signal.SIGKILL)
+                except (OSError, ValueError):
+                    pass
+            os.unlink(hp)
         for c in self.children:
             if c.state in ('parked', 'blocked', 'new', 'error'):
                 try:
@@ -421,8 +455,13 @@ CRASH_SCRIPTS = {
     'with_default_timeout': {'how': 'with', 'mode': 'default', 'reentrant': False, 'nest': 1, 'rounds': 1, 'ctor_timeout': 0.25, 'hold_steps': 2},
     'reentrant_nested': {'how': 'acquire', 'mode': 'default', 'reentrant': True, 'nest': 3, 'rounds': 1, 'ctor_timeout': -1, 'hold_steps': 2},
     'two_rounds': {'how': 'with', 'mode': 'default', 'reentrant': False, 'nest': 1, 'rounds': 2, 'ctor_timeout': -1, 'hold_steps': 1},
+    'daemon_with_helper': {'how': 'acquire', 'mode': 'default', 'reentrant': False, 'nest': 1, 'rounds': 1, 'ctor_timeout': -1,
+                           'hold_steps': 2, 'close_stdin': True, 'spawn_helper': True},
 }
 FRESH = {'how': 'acquire', 'mode': 'default', 'reentrant': False, 'nest': 1, 'rounds': 1, 'ctor_timeout': -1, 'hold_steps': 1}
+# the probe that must get the lock after the crash alternates between the blocking and the polling (timed) path
+FRESH_TIMED = {'how': 'acquire', 'mode': 'timed', 'timeout': 0.25, 'reentrant': False, 'nest': 1, 'rounds': 1, 'ctor_timeout': -1,
+               'hold_steps': 1}
 
 _event_counts = {}
 
@@ -435,7 +474,7 @@ def count_events(name):
     path = flworld.fresh_path()
     ctl = Controller(path, path + '.marker')
     try:
-        ch = ctl.spawn(CRASH_SCRIPTS[name] if name != '__fresh__' else FRESH)
+        ch = ctl.spawn(CRASH_SCRIPTS[name] if not name.startswith('__fresh') else (FRESH if name == '__fresh__' else FRESH_TIMED))
         n = 0
         while ch.state in ('parked', 'blocked') and n < 5000:
             ctl.step(ch)
@@ -454,7 +493,9 @@ def execute_crash(prog, sspec):
     ctl = Controller(path, path + '.marker')
     rng = random.Random(sspec.get('seed', 0))
     end = 'normal'
-    fresh_budget = prog.get('fresh_budget') or (count_events('__fresh__') + 5)
+    timed_probe = bool(prog.get('timed_probe'))
+    fresh_script = FRESH_TIMED if timed_probe else FRESH
+    fresh_budget = prog.get('fresh_budget') or (count_events('__fresh_timed__' if timed_probe else '__fresh__') + 5)
     killed_state = None
     try:
         victim = ctl.spawn(CRASH_SCRIPTS[prog['script']])
@@ -481,12 +522,12 @@ def execute_crash(prog, sspec):
             done_v += 1
         killed_state = {'line': victim.line, 'in_critical': victim.in_critical, 'state': victim.state, 'events': victim.events}
         if victim.state in ('parked', 'blocked'):
-            ctl.kill(victim)
+            ctl.kill(victim, reap=not prog.get('zombie'))
         # (i) a fresh process must get the lock without any survivor having to act -- unless a survivor holds it
         # (kernel truth: probe the flock from the controller's own descriptor)
         survivor_holds = flworld.kernel_locked(path)
         if not survivor_holds:
-            fresh = ctl.spawn(FRESH)
+            fresh = ctl.spawn(fresh_script)
             n = 0
             while fresh.state in ('parked', 'blocked') and not fresh.in_critical and n < fresh_budget:
                 ctl.step(fresh)
@@ -494,7 +535,8 @@ def execute_crash(prog, sspec):
             if not fresh.in_critical and fresh.entries == 0:
                 ctl.viol('C13', 'filelock.stuck_after_crash', 'a fresh process cannot acquire the lock after the holder was killed',
                          f'script {prog["script"]} killed after {k} step(s) at filelock.py:{killed_state["line"]} '
-                         f'(in_critical={killed_state["in_critical"]}); fresh process state {fresh.state} at line {fresh.line} after '
+                         f'(in_critical={killed_state["in_critical"]}, left as zombie={bool(prog.get("zombie"))}, '
+                         f'probe={"timed" if timed_probe else "blocking"}); fresh process state {fresh.state} at line {fresh.line} after '
                          f'{n} step(s); contenders {[(o.idx, o.state, o.line) for o in others]}',
                          script=prog['script'])
         # (ii) everybody alive runs to completion under the overlap detector
@@ -510,7 +552,7 @@ def execute_crash(prog, sspec):
                      f'script {prog["script"]} killed after {k} step(s) at line {killed_state["line"]}: still '
                      f'{[(c.idx, c.state, c.line) for c in ctl.live()]} after {ctl.steps} controller steps', script=prog['script'])
         if r == 'done':
-            late = ctl.spawn(FRESH)
+            late = ctl.spawn(fresh_script)
             n = 0
             while late.state in ('parked', 'blocked') and not late.in_critical and n < fresh_budget:
                 ctl.step(late)
